@@ -42,6 +42,7 @@ pub fn profile(prop: &str, thorough: bool) -> Option<Profile> {
             p.ops = (p.ops.0 + p.ops.0 / 2, p.ops.1 * 2);
             if p.name == "static-cover" {
                 p.max_dims = 4;
+                p.max_attrs = 6;
             }
         }
         p
@@ -52,7 +53,7 @@ pub fn profile(prop: &str, thorough: bool) -> Option<Profile> {
             prop: if prop == "C01" { "C01" } else { "C02" },
             name: "static-cover",
             max_dims: 3,
-            max_attrs: 4,
+            max_attrs: 5,
             ops: (14, 22),
             w: Weights { keygen: 10, encaps: 12, matrix: 1, ..z },
             omega_targets: true,
@@ -130,7 +131,7 @@ pub fn profile(prop: &str, thorough: bool) -> Option<Profile> {
             prop: "C11",
             name: "hybridization",
             ops: (20, 35),
-            w: Weights { add_attr: 2, disable: 2, update: 3, rekey: 6, prune: 1, keygen: 5, refresh: 5, encaps: 12, roundtrip: 4, recaps: 1, matrix: 2, ..z },
+            w: Weights { add_attr: 2, del_attr: 2, disable: 2, update: 4, rekey: 6, prune: 1, keygen: 5, refresh: 6, encaps: 12, roundtrip: 4, recaps: 1, matrix: 2, ..z },
             random_hints: true,
             omega_targets: true,
             max_encs: 10,
